@@ -39,10 +39,10 @@ func Profile() *world.Profile {
 		MinRoutes:  1, MaxRoutes: 4, MaxRouteHs: 4,
 		Envs:    []int{0, 1, 2},
 		MaxActs: 3, NextMax: 2, RetW: []int{4, 1, 1},
-		PanicPm: 450, MissingPm: 150, BadStatus: 80, WFaultPm: 100, HookPanicPm: 50, CancelPm: 40, DeadlinePm: 40, FaultFree: 100,
+		PanicPm: 450, MissingPm: 150, BadStatus: 80, WFaultPm: 100, HookPanicPm: 50, RHPanicPm: 40, CancelPm: 40, DeadlinePm: 40, FaultFree: 100,
 		MinTasks: 1, MaxTasks: 4, MinReqs: 2, MaxReqs: 6,
 		HotPm: 250, HostilePm: 100,
-		Methods: []string{"GET"}, MethodW: []int{1},
+		Methods: []string{"GET", "HEAD"}, MethodW: []int{5, 1},
 		KnownChain: true,
 	}
 	p.Shapes = make([]int, 16)
@@ -208,7 +208,7 @@ func (Engine) Run(t *tape.Tape, o eng.Opts) *eng.Result {
 						tok = e.A == world.PvString || e.A == world.PvError || e.A == world.PvStruct || e.A == world.PvWrapped || e.A == world.PvErrSlice || e.A == world.PvMap
 					}
 					at := idxOf(int(e.H))
-					if e.A < 0 {
+					if e.A < 0 || at < 0 {
 						at = lastEntered
 					}
 					panics = append(panics, panicInfo{evIdx: i, chain: at, kind: k, hasTok: tok, statusBefore: status})
@@ -346,6 +346,13 @@ func (Engine) Run(t *tape.Tape, o eng.Opts) *eng.Result {
 					tok := world.PanicToken(q.Name, posOfChain(w, full, pi.chain))
 					if bytes.Contains(q.W.Body, []byte(tok)) || bytes.Contains(q.W.Body, []byte("PANICTOK-")) {
 						viol("detail-leak", "panic detail ("+tok+") appears in the response body in "+envName+" mode: "+string(q.W.Body), shape)
+					}
+				}
+				for k, vs := range q.W.Sent {
+					for _, v := range vs {
+						if bytes.Contains([]byte(v), []byte("PANICTOK-")) || bytes.Contains([]byte(v), []byte(".go:")) {
+							viol("detail-leak", "panic detail appears in response header "+k+" in "+envName+" mode: "+v, shape)
+						}
 					}
 				}
 				if bytes.Contains(q.W.Body, []byte("goroutine ")) || bytes.Contains(q.W.Body, []byte(".go:")) {
